@@ -842,3 +842,11 @@ M_COLUMN.harnesses.append(H("u53_validate_rejects_unrepresentable_index_size", "
 UNIT_META["U53"] = {"functions": ["column::HashColumn::validate_plan (index-record branch)"], "assumes": ["HashColumn::trigger_reindex replaced by a contract that must not be reached", "LogReader::read by contract"]}
 PROPS["C13"]["kani_units"] = list(PROPS["C13"]["kani_units"]) + ["U53"]
 PROPS["C13"]["claim"] = PROPS["C13"]["claim"] + " HashColumn::validate_plan rejects an index record whose table id names an index size the log overlay has no slot for (complete over all such sizes) without starting an index growth."
+
+# ---------------------------------------------------------------- U54
+for _n in (0, 1, 2):
+    M_COLUMN.harnesses.append(H("u54_moved_value_indexed_need%d" % _n, "U54", kind="bounded", shape="HashColumn::write_plan of an overwrite that moves the value; the key is found in the current or in a queued index; the current index answers 'chunk full' %d time(s)" % _n, bound="at most two consecutive 'chunk full' answers; index / value operations by contract"))
+UNIT_META["U54"] = {"functions": ["column::HashColumn::{write_plan,write_plan_existing}"], "assumes": ["HashColumn::search_all_indexes (U15c), IndexTable::write_insert_plan / write_remove_plan (U3), Column::write_existing_value_plan (U8d), HashColumn::trigger_reindex (U22) replaced by contracts (recorders)"]}
+for _p in ("C14", "C09", "C01", "C06"):
+    PROPS[_p]["kani_units"] = list(PROPS[_p]["kani_units"]) + ["U54"]
+PROPS["C14"]["claim"] = PROPS["C14"]["claim"] + " An overwrite that moves a value to another slot leaves the key indexed at the new address even when the chunk of the current index is full: the index grows until an insert is accepted (Kani, bounded: at most two 'chunk full' answers)."
